@@ -40,6 +40,23 @@
                               hypothesis is stated for the heap cut down to `64·(Pk + A + 2)` bytes;
                               `runItems_larger_heap`: a run that succeeds in a smaller heap is the same run
                               in a larger one).
+  * `C10_x86_footprint_loaded`  the same ON THE TEXT of the routine: `run (printProg routine)`, the machine's
+                              own entry point, without a loader hypothesis (`C14_routine_loads`).
+  * `C10_x86_data_size`       C10 IN TERMS OF THE SOURCE-LEVEL DATA, ALL RUNS: let `D` bound the number of fields
+                              of the object values held by the variables of the AxCut positional machine
+                              (`valsFields st.env ≤ D` for every reachable state — a statement about the
+                              program alone, no machine in it).  Then in ANY heap of at least `64·(D + A + 2)`
+                              bytes, for EVERY amount of machine fuel (below `2^64/(M + 1)`), terminating run or
+                              not, the result is `outOfFuel` or `done v` and the highest heap address written
+                              is at most `D + A + 2` blocks above the heap base.  The peak hypothesis is
+                              DERIVED: the frontier moves only when both free lists are empty (`FrPk`), then
+                              every block in use belongs to an object of the abstract heap (NO GARBAGE,
+                              Scc/Heap/RefineNoGarb.lean), and the objects of the abstract heap are nodes of the
+                              values of the environment (Scc/X86/ConcData.lean).
+                              `C10_x86_data_size_loaded`: on the text of the routine.
+                              EXAMPLE: the box loop `main(x) { let b = B(x); switch b { B(y) => main(y) } }`
+                              runs FOREVER in 4 blocks: for every fuel below 2^60 the machine is still running
+                              and has not written above 256 bytes of its heap.
   * `C10_x86_coarse`          with `Pk = A·fuel + 1` the peak hypothesis is trivial: the theorem subsumes
                               the room hypothesis of `C06_data_programs` (up to the constant).
   * `C10_mhw_in_heap`, `C10_larger_heap`   the two generic machine facts (any program).
@@ -51,7 +68,10 @@
   (non-terminating included), peak measured at the `#ctx` hooks.
 -/
 import Scc.X86.ConcC10
+import Scc.X86.ConcDataRun
+import Scc.Props.C13X86Data
 import Scc.Props.C06X86Heap
+import Scc.Props.C14Loader
 
 namespace Scc.X86
 open Scc.AxCut Scc.AxCut.Pos Scc.Backend Scc.Backend.Abs Scc.X86.Ref Scc.X86.Conc
@@ -208,6 +228,237 @@ theorem C10_x86_footprint (p : AxCut.Prog) (args : List Word) (hooks : Bool) (bo
   have e := runItems_larger_heap (sub_withHeapBytes MO hbytes) hheap hheap items args fuel' v h2
   exact ⟨fuel', by rw [e]; exact h1, by rw [e]; exact h2, by rw [e]; exact h3⟩
 
+/-- C10, THE FOOTPRINT, ON THE TEXT OF THE ROUTINE: the machine's entry point `run` on the printed routine
+(parsed by the machine's own parser: `C14_routine_loads`, for text-safe names) reproduces trace and result and
+never writes above `Pk + A + 2` blocks of its heap -/
+theorem C10_x86_footprint_loaded (p : AxCut.Prog) (args : List Word) (hooks : Bool) (body routine : List Code)
+    (nargs : Nat) (d0 : Def) (ops : List MockOp) (c' : Nat)
+    (hsafe : LabelSafe p = true) (htp : LinTypedProg p) (hdata : DataProg p) (hrange : ProgInRange p)
+    (hnames : C14_namesTextSafe p = true)
+    (hcompM : (compile mockSym hooks p).run 0 = .ok ((ops, nargs), c')) (hfit : CodeFits ops)
+    (hcompX : compileX86 p hooks 0 = .ok (body, nargs)) (hrout : intoRoutine body nargs = .ok routine)
+    (hnd : (labs routine).Nodup)
+    (hd : p.defs.head? = some d0) (hentry : ∀ b ∈ d0.ctx, b.chi = .ext ∧ b.ty = .i64)
+    (hcap : ∀ st, Reachable p ⟨d0.ctx, args.map .int, d0.body⟩ st → 2 * st.ctx.length ≤ 266)
+    (fuel : Nat) (out : List (Bool × Word)) (v : Word) (hfuel : fuel + 1 < 2 ^ 64)
+    (hrun : Pos.run p args fuel = ⟨out, .done v⟩)
+    (cfg : MonCfg) (MO : MachOK cfg.mach) (hk : cfg.consts = consts) (hheap : cfg.heap = false)
+    (hb8 : cfg.mach.heapBase % 8 = 0) (hb0 : 0 < cfg.mach.heapBase)
+    (Pk : Nat) (hbytes : 64 * (Pk + progMaxLet p + 2) ≤ cfg.mach.heapBytes)
+    (hfitX : addrAt cfg.mach.codeBase routine routine.length < 2 ^ 64)
+    (hP : ∀ items, parseText (printProg routine) = .ok items →
+      PeakAtMost p hooks routine ops (withHeapBytes cfg (64 * (Pk + progMaxLet p + 2))) items args Pk
+        (progMaxLet p * fuel + 1)) :
+    ∃ fuel', (run (printProg routine) args fuel' cfg).out = out ∧
+      (run (printProg routine) args fuel' cfg).res = .done v ∧
+      (run (printProg routine) args fuel' cfg).maxHeapWritten ≤ 64 * (Pk + progMaxLet p + 2) := by
+  obtain ⟨items, hparse, hitems⟩ := C14_routine_loads hrange hnames hcompX hrout
+  obtain ⟨fuel', h1, h2, h3⟩ := C10_x86_footprint p args hooks body routine nargs d0 ops c' hsafe htp hdata hrange
+    hcompM hfit hcompX hrout hnd hd hentry hcap fuel out v hfuel hrun cfg MO hk hheap hb8 hb0 Pk hbytes items hitems
+    hfitX (hP items hparse)
+  exact ⟨fuel', by rw [run_eq_runItems hparse]; exact h1, by rw [run_eq_runItems hparse]; exact h2,
+    by rw [run_eq_runItems hparse]; exact h3⟩
+
+/-- a run of the positional machine that has ended (not `outOfFuel`) gives the same behaviour with more fuel -/
+theorem C10_runState_mono (prog : AxCut.Prog) : ∀ (fuel : Nat) (st : Pos.State) (acc : List (Bool × Word)),
+    (Pos.runState prog fuel st acc).res ≠ .outOfFuel →
+    ∀ k, Pos.runState prog (fuel + k) st acc = Pos.runState prog fuel st acc
+  | 0, _, _, h, _ => by simp [Pos.runState] at h
+  | fuel + 1, st, acc, h, k => by
+    rw [show fuel + 1 + k = (fuel + k) + 1 by omega]
+    simp only [Pos.runState] at h ⊢
+    cases hst : Pos.step prog st with
+    | stuck w => rfl
+    | done v' => rfl
+    | next st' o =>
+      rw [hst] at h
+      simp only
+      exact C10_runState_mono prog fuel st' _ h k
+
+theorem C10_run_mono (p : AxCut.Prog) (args : List Word) (f : Nat) (h : (Pos.run p args f).res ≠ .outOfFuel)
+    (k : Nat) : Pos.run p args (f + k) = Pos.run p args f := by
+  unfold Pos.run at h ⊢
+  cases hdefs : p.defs with
+  | nil => rfl
+  | cons d ds =>
+    rw [hdefs] at h
+    simp only at h ⊢
+    split
+    · rfl
+    · rename_i hl
+      rw [if_neg hl] at h
+      exact C10_runState_mono p f _ [] h k
+
+/-- a run that ends with `done v` for some fuel never gets stuck, and `v` is its only result -/
+theorem C10_done_unique {p : AxCut.Prog} {args : List Word} {f0 : Nat} {out0 : List (Bool × Word)} {v0 : Word}
+    (h0 : Pos.run p args f0 = ⟨out0, .done v0⟩) :
+    (∀ f w, (Pos.run p args f).res ≠ .stuck w) ∧
+    (∀ f out v, Pos.run p args f = ⟨out, .done v⟩ → v = v0) := by
+  have key : ∀ f, (Pos.run p args f).res ≠ .outOfFuel → Pos.run p args f = Pos.run p args f0 := by
+    intro f hne
+    have h1 := C10_run_mono p args f hne f0
+    have h2 := C10_run_mono p args f0 (by rw [h0]; intro e; cases e) f
+    rw [Nat.add_comm] at h2
+    rw [← h1, h2]
+  constructor
+  · intro f w h
+    have := key f (by rw [h]; intro e; cases e)
+    rw [this, h0] at h
+    cases h
+  · intro f out v h
+    have := key f (by rw [h]; intro e; cases e)
+    rw [h, h0] at this
+    injection this with _ e
+    injection e
+
+/-! ## C10 in terms of the source-level data -/
+
+/-- C10, ALL RUNS, IN TERMS OF THE DATA OF THE POSITIONAL MACHINE: if the object values held by the variables
+never have more than `D` fields in total (over all reachable states of the AxCut positional machine), then in
+any heap of at least `64·(D + A + 2)` bytes (`A = progMaxLet p`) the machine, for every amount of fuel (below
+`2^64 / (M + 1)`, `M = progMaxSize p`), is still running or has returned the result of the positional machine,
+and has never written above `D + A + 2` blocks of its heap — whatever the length of the run.  (The positional
+machine must not get stuck: no division by zero / overflow.) -/
+theorem C10_x86_data_size (p : AxCut.Prog) (args : List Word) (hooks : Bool) (body routine : List Code)
+    (nargs : Nat) (d0 : Def) (ops : List MockOp) (c' : Nat)
+    (hsafe : LabelSafe p = true) (htp : LinTypedProg p) (hdata : DataProg p) (hrange : ProgInRange p)
+    (hcompM : (compile mockSym hooks p).run 0 = .ok ((ops, nargs), c')) (hfit : CodeFits ops)
+    (hcompX : compileX86 p hooks 0 = .ok (body, nargs)) (hrout : intoRoutine body nargs = .ok routine)
+    (hnd : (labs routine).Nodup)
+    (hd : p.defs.head? = some d0) (hentry : ∀ b ∈ d0.ctx, b.chi = .ext ∧ b.ty = .i64)
+    (hlen : d0.ctx.length = args.length)
+    (hcap : ∀ st, Reachable p ⟨d0.ctx, args.map .int, d0.body⟩ st → 2 * st.ctx.length ≤ 266)
+    (hnostuck : ∀ fuel w, (Pos.run p args fuel).res ≠ .stuck w)
+    (D : Nat) (hD : ∀ st, Reachable p ⟨d0.ctx, args.map .int, d0.body⟩ st → valsFields st.env ≤ D)
+    (cfg : MonCfg) (MO : MachOK cfg.mach) (hheap : cfg.heap = false)
+    (hb8 : cfg.mach.heapBase % 8 = 0) (hb0 : 0 < cfg.mach.heapBase)
+    (hbytes : 64 * (D + progMaxLet p + 2) ≤ cfg.mach.heapBytes)
+    (items : List (Code × Nat)) (hitems : (items.map (·.1)).map stripC = routine.map stripC)
+    (hfitX : addrAt cfg.mach.codeBase routine routine.length < 2 ^ 64)
+    (fuel' : Nat) (hf : fuel' * (progMaxSize p + 1) + stmtSize d0.body + 1 < 2 ^ 64) :
+    ((runItems items args fuel' cfg).res = .outOfFuel ∨
+      ∃ v out, Pos.run p args (fuel' * (progMaxSize p + 1) + stmtSize d0.body) = ⟨out, .done v⟩ ∧
+        (runItems items args fuel' cfg).res = .done v) ∧
+    (runItems items args fuel' cfg).maxHeapWritten ≤ 64 * (D + progMaxLet p + 2) :=
+  data_programs_dsize_all p args hooks body routine nargs d0 ops c' hsafe htp
+    ⟨hrange.1, fun d hd => ⟨hdata d hd, hrange.2 d hd⟩⟩ hcompM hfit hcompX hrout hnd hd hentry hlen hcap hnostuck
+    D hD cfg MO hheap hb8 hb0 (progMaxLet p) (progMaxSize p) (letLe_progMaxLet p) (stmtSize_le_progMaxSize p)
+    hbytes items hitems hfitX fuel' hf
+
+/-- … on the TEXT of the routine (`run (printProg routine)`, the machine's own parser: `C14_routine_loads`) -/
+theorem C10_x86_data_size_loaded (p : AxCut.Prog) (args : List Word) (hooks : Bool) (body routine : List Code)
+    (nargs : Nat) (d0 : Def) (ops : List MockOp) (c' : Nat)
+    (hsafe : LabelSafe p = true) (htp : LinTypedProg p) (hdata : DataProg p) (hrange : ProgInRange p)
+    (hnames : C14_namesTextSafe p = true)
+    (hcompM : (compile mockSym hooks p).run 0 = .ok ((ops, nargs), c')) (hfit : CodeFits ops)
+    (hcompX : compileX86 p hooks 0 = .ok (body, nargs)) (hrout : intoRoutine body nargs = .ok routine)
+    (hnd : (labs routine).Nodup)
+    (hd : p.defs.head? = some d0) (hentry : ∀ b ∈ d0.ctx, b.chi = .ext ∧ b.ty = .i64)
+    (hlen : d0.ctx.length = args.length)
+    (hcap : ∀ st, Reachable p ⟨d0.ctx, args.map .int, d0.body⟩ st → 2 * st.ctx.length ≤ 266)
+    (hnostuck : ∀ fuel w, (Pos.run p args fuel).res ≠ .stuck w)
+    (D : Nat) (hD : ∀ st, Reachable p ⟨d0.ctx, args.map .int, d0.body⟩ st → valsFields st.env ≤ D)
+    (cfg : MonCfg) (MO : MachOK cfg.mach) (hheap : cfg.heap = false)
+    (hb8 : cfg.mach.heapBase % 8 = 0) (hb0 : 0 < cfg.mach.heapBase)
+    (hbytes : 64 * (D + progMaxLet p + 2) ≤ cfg.mach.heapBytes)
+    (hfitX : addrAt cfg.mach.codeBase routine routine.length < 2 ^ 64)
+    (fuel' : Nat) (hf : fuel' * (progMaxSize p + 1) + stmtSize d0.body + 1 < 2 ^ 64) :
+    ((run (printProg routine) args fuel' cfg).res = .outOfFuel ∨
+      ∃ v, (run (printProg routine) args fuel' cfg).res = .done v) ∧
+    (run (printProg routine) args fuel' cfg).maxHeapWritten ≤ 64 * (D + progMaxLet p + 2) := by
+  obtain ⟨items, hparse, hitems⟩ := C14_routine_loads hrange hnames hcompX hrout
+  rw [run_eq_runItems hparse]
+  obtain ⟨h1, h2⟩ := C10_x86_data_size p args hooks body routine nargs d0 ops c' hsafe htp hdata hrange hcompM hfit
+    hcompX hrout hnd hd hentry hlen hcap hnostuck D hD cfg MO hheap hb8 hb0 hbytes items hitems hfitX fuel' hf
+  refine ⟨?_, h2⟩
+  rcases h1 with h | ⟨v, _, _, h⟩
+  · exact Or.inl h
+  · exact Or.inr ⟨v, h⟩
+
+/-- THE BOX LOOP RUNS FOREVER IN FOUR BLOCKS: `main(x) { let b = B(x); switch b { B(y) => main(y) } }`, started
+with x = 21 in the default configuration (a 32 MiB heap): for EVERY fuel below 2^60 the machine is still running
+(`outOfFuel`: it never faults and never returns) and the highest heap address it has written lies at most 256
+bytes above the heap base — space independent of the number of repetitions. -/
+theorem C10_boxLoop_constant_space (fuel' : Nat) (hf : fuel' < 2 ^ 60) :
+    (runItems (C13_loopBoxRoutine.map fun c => (c, 0)) [21] fuel' {}).res = .outOfFuel ∧
+    (runItems (C13_loopBoxRoutine.map fun c => (c, 0)) [21] fuel' {}).maxHeapWritten ≤ 256 := by
+  have hcompM : ∃ k, (compile mockSym true C13_loopBoxProg).run 0 = .ok ((C13_loopBoxOps, 1), k) := ⟨_, rfl⟩
+  obtain ⟨c', hcompM⟩ := hcompM
+  have hcompX : compileX86 C13_loopBoxProg true 0 = .ok (C13_loopBoxBody, 1) := rfl
+  have hrout : intoRoutine C13_loopBoxBody 1 = .ok C13_loopBoxRoutine := rfl
+  obtain ⟨e1, e2, e3⟩ := C13_loopBox_consts
+  have hnostuck : ∀ fuel w, (Pos.run C13_loopBoxProg [21] fuel).res ≠ .stuck w := by
+    intro fuel w h
+    have hrs : Pos.run C13_loopBoxProg [21] fuel = Pos.runState C13_loopBoxProg fuel C13_loopS0 [] :=
+      run_eq_runState rfl rfl fuel
+    rw [hrs, (C13_loop_runs fuel []).1] at h
+    cases h
+  have key := C10_x86_data_size C13_loopBoxProg [21] true C13_loopBoxBody C13_loopBoxRoutine 1
+    C13_loopBoxMain C13_loopBoxOps c'
+    (by decide) (linTypedCheck_sound C13_loopBoxProg rfl) C13_loopBoxProg_data C13_loopBoxProg_inRange hcompM
+    (by decide) hcompX hrout (by decide) rfl (by decide) rfl
+    (fun st hr => by rcases C13_loop_reachable st hr with rfl | rfl | rfl <;> decide)
+    hnostuck 1
+    (fun st hr => by rcases C13_loop_reachable st hr with rfl | rfl | rfl <;> decide)
+    {} machOK_default rfl (by decide) (by decide) (by rw [e1]; decide)
+    (C13_loopBoxRoutine.map fun c => (c, 0)) (by simp [List.map_map, Function.comp]) C13_loopBoxRoutine_fits
+    fuel' (by rw [e2, e3]; omega)
+  rw [e1] at key
+  refine ⟨?_, key.2⟩
+  rcases key.1 with h | ⟨v, out, hdone, _⟩
+  · exact h
+  · exfalso
+    have hrs : Pos.run C13_loopBoxProg [21] (fuel' * (progMaxSize C13_loopBoxProg + 1) + stmtSize C13_loopBoxMain.body) =
+        Pos.runState C13_loopBoxProg _ C13_loopS0 [] := run_eq_runState rfl rfl _
+    have := (C13_loop_runs (fuel' * (progMaxSize C13_loopBoxProg + 1) + stmtSize C13_loopBoxMain.body) []).1
+    rw [← hrs, hdone] at this
+    cases this
+
+/-- the bound on the data of all reachable states, checked on the finitely many states of a terminating run
+(an executable form of the hypothesis `hD` of `C10_x86_data_size`) -/
+theorem C10_dataSize_of_run (prog : AxCut.Prog) (fuel : Nat) (st0 : Pos.State) (D : Nat)
+    (hstop : Scc.Props.C06Generic.stopsWithin prog fuel st0 = true)
+    (hall : (Scc.Props.C06Generic.statesOf prog fuel st0).all (fun st => decide (valsFields st.env ≤ D)) = true) :
+    ∀ st, Reachable prog st0 st → valsFields st.env ≤ D := by
+  intro st hr
+  have := Scc.Props.C06Generic.reachable_mem_statesOf prog fuel st0 st hstop hr
+  rw [List.all_eq_true] at hall
+  simpa using hall st this
+
+theorem C10_boxProg_consts : progMaxLet C06_boxProg = 1 ∧ progMaxSize C06_boxProg = 10 ∧
+    stmtSize C06_boxMain.body = 10 := by decide
+
+/-- THE BOX PROGRAM OF C06X86Heap (terminating: allocate, share, load shared, load unique, print) in the default
+configuration: for EVERY fuel below 2^58 the machine is still running or has returned 42, and it never writes
+above 320 bytes of its heap (`D = 2`: at no state do the variables hold more than two fields of object data —
+the box shared by two variables) -/
+theorem C10_boxProg_footprint (fuel' : Nat) (hf : fuel' < 2 ^ 58) :
+    ((runItems (C06_boxRoutine.map fun c => (c, 0)) [21] fuel' {}).res = .outOfFuel ∨
+      (runItems (C06_boxRoutine.map fun c => (c, 0)) [21] fuel' {}).res = .done 42) ∧
+    (runItems (C06_boxRoutine.map fun c => (c, 0)) [21] fuel' {}).maxHeapWritten ≤ 320 := by
+  have hcompM : ∃ k, (compile mockSym true C06_boxProg).run 0 = .ok ((C06_boxOps, 1), k) := ⟨_, rfl⟩
+  obtain ⟨c', hcompM⟩ := hcompM
+  have hcompX : compileX86 C06_boxProg true 0 = .ok (C06_boxBody, 1) := rfl
+  have hrout : intoRoutine C06_boxBody 1 = .ok C06_boxRoutine := rfl
+  have hrun : Pos.run C06_boxProg [21] 20 = ⟨[(true, 42)], .done 42⟩ := by decide
+  obtain ⟨e1, e2, e3⟩ := C10_boxProg_consts
+  obtain ⟨hnostuck, huniq⟩ := C10_done_unique hrun
+  have key := C10_x86_data_size C06_boxProg [21] true C06_boxBody C06_boxRoutine 1 C06_boxMain C06_boxOps c'
+    (by decide) (linTypedCheck_sound C06_boxProg rfl) C06_boxProg_data C06_boxProg_inRange hcompM (by decide)
+    hcompX hrout (by decide) rfl (by decide) rfl
+    (C06_capacity_of_run C06_boxProg 20 _ (by decide) (by decide)) hnostuck 2
+    (C10_dataSize_of_run C06_boxProg 20 _ 2 (by decide) (by decide))
+    {} machOK_default rfl (by decide) (by decide) (by rw [e1]; decide)
+    (C06_boxRoutine.map fun c => (c, 0)) (by simp [List.map_map, Function.comp]) C06_boxRoutine_fits
+    fuel' (by rw [e2, e3]; omega)
+  rw [e1] at key
+  refine ⟨?_, key.2⟩
+  rcases key.1 with h | ⟨v, out, hdone, h⟩
+  · exact Or.inl h
+  · right
+    rw [huniq _ out v hdone] at h
+    exact h
+
 /-- with `Pk = A·fuel + 1` the peak hypothesis is trivial: the coarse room hypothesis of
 `C06_data_programs`, as a corollary of the footprint theorem -/
 theorem C10_x86_coarse (p : AxCut.Prog) (args : List Word) (hooks : Bool) (body routine : List Code)
@@ -264,4 +515,9 @@ end Scc.X86
 #print axioms Scc.X86.C10_x86_every_prefix
 #print axioms Scc.X86.C10_x86_data_programs
 #print axioms Scc.X86.C10_x86_footprint
+#print axioms Scc.X86.C10_x86_footprint_loaded
+#print axioms Scc.X86.C10_x86_data_size
+#print axioms Scc.X86.C10_x86_data_size_loaded
+#print axioms Scc.X86.C10_boxLoop_constant_space
+#print axioms Scc.X86.C10_boxProg_footprint
 #print axioms Scc.X86.C10_x86_coarse
